@@ -20,8 +20,8 @@ import (
 
 type C19Case struct {
 	Law  string `json:"law"`
-	X    *E     `json:"x"`            // the input value (zoo description), bound to x
-	Y    *E     `json:"y,omitempty"`  // second operand, bound to y
+	X    *E     `json:"x"`           // the input value (zoo description), bound to x
+	Y    *E     `json:"y,omitempty"` // second operand, bound to y
 	Args []int  `json:"args,omitempty"`
 	Sep  string `json:"sep,omitempty"`
 	Omit bool   `json:"omit,omitempty"` // slice: length omitted
@@ -497,7 +497,7 @@ func TestC19Laws(t *testing.T) {
 			}
 			el, _ := descElems(c.X)
 			n := len(el)
-			c.Args = []int{rapid.IntRange(-(n + 2), n+2).Draw(rt, "start"), rapid.IntRange(-(n + 2), n+2).Draw(rt, "len")}
+			c.Args = []int{rapid.IntRange(-(n+2), n+2).Draw(rt, "start"), rapid.IntRange(-(n+2), n+2).Draw(rt, "len")}
 			c.Omit = rapid.IntRange(0, 3).Draw(rt, "omit") == 0
 			nt = c.Omit || c.Args[0] < 0 || c.Args[1] < 0 || c.Args[0] > n || c.Args[0]+c.Args[1] > n
 		}
